@@ -30,7 +30,7 @@ def make_record(d, raw, start, gen, ro, po, c01=True):
     generic = gen is not None and not gen.get("generate_for_unpack", True)
     genericp = gen is not None and not gen.get("generate_for_pack", True)
     rec = {"prog": d["prog"], "root": d["root"], "raw": list(raw), "start": start,
-           "generic": generic, "genericp": genericp, "c01": bool(c01), "has2": False, "has3": False, "shift": 0,
+           "generic": generic, "genericp": genericp, "vec": True if gen is None else bool(gen.get("vectorize", True)), "c01": bool(c01), "has2": False, "has3": False, "shift": 0,
            "cu": uobs(ro), "cp": pobs(po)}
     extra = {}
     for o, tag in ((ro, "unpack"), (po, "pack")):
